@@ -68,6 +68,12 @@ pub struct ImgStats {
     pub lookups_present: u64,
     pub lookups_vs_nomt: u64,
     pub branches_partly_compressed: u64,
+    pub seeks_compared: u64,
+    pub seeks_present: u64,
+    pub seeks_terminator: u64,
+    pub seeks_foreign_leaf: u64,
+    pub seeks_rebuilt: u64,
+    pub seeks_max_siblings: u64,
 }
 
 impl ImgStats {
@@ -113,6 +119,12 @@ impl ImgStats {
         self.lookups_present += o.lookups_present;
         self.lookups_vs_nomt += o.lookups_vs_nomt;
         self.branches_partly_compressed += o.branches_partly_compressed;
+        self.seeks_compared += o.seeks_compared;
+        self.seeks_present += o.seeks_present;
+        self.seeks_terminator += o.seeks_terminator;
+        self.seeks_foreign_leaf += o.seeks_foreign_leaf;
+        self.seeks_rebuilt += o.seeks_rebuilt;
+        self.seeks_max_siblings = self.seeks_max_siblings.max(o.seeks_max_siblings);
     }
 }
 
@@ -291,6 +303,10 @@ fn check_point<H: HashAlgorithm>(
                     out.stats.freelist_max_portions = out.stats.freelist_max_portions.max(g("portions"));
                     out.stats.freelist_fragmented_lists += g("frag") as usize;
                     out.stats.freelist_inplace_rewrites += g("inplace");
+                    if g("inplace") > 0 {
+                        // a write of the free-list commit onto a portion page of the previous image (C17)
+                        fail(out, "freelist", format!("free-list check {} inplace failed: FAIL TInPlace the commit writes {} portion page(s) of the old list in place", t[0], g("inplace")));
+                    }
                 }
             }
         }
@@ -480,6 +496,147 @@ fn check_point<H: HashAlgorithm>(
                 }
             }
         }
+    }
+
+    // the merkle read path (coq/theories/SeekPath.v, the mirror of Seeker / SeekRequest::continue_seek /
+    // reconstruct_pages / compute_root_node): up to 24 seeks on the decoded image with the uploaded
+    // hash oracle - present keys whose leaf lies below an ELIDED page (the decoder names them) and
+    // absent keys that leave their paths inside the rebuilt pages, present keys spread over the key
+    // space, absent keys diverging from a present key after 0, 3, 6, 7, 11, 12, 13, 18, 19, 40, 255
+    // bits, the extreme keys - against the REAL Session::prove of the live handle, byte for byte
+    if let Some(db) = r.db.as_ref() {
+        let present: Vec<&str> = dump.iter().filter_map(|l| l.split(' ').next()).collect();
+        let vid_of: HashMap<&str, u32> = dump
+            .iter()
+            .filter_map(|l| {
+                let mut t = l.split(' ');
+                Some((t.next()?, t.next()?.parse().ok()?))
+            })
+            .collect();
+        let mut keys: Vec<String> = Vec::new();
+        let mut push = |k: String| {
+            if k.len() == 64 && keys.len() < 24 && !keys.contains(&k) {
+                keys.push(k);
+            }
+        };
+        let flip = |k: &str, bit: usize| -> String {
+            let mut b = unhex(k);
+            if b.len() == 32 {
+                b[bit / 8] ^= 0x80 >> (bit % 8);
+            }
+            hex(&b)
+        };
+        let targets = r.model.ask_multi("imgseekkeys 5");
+        for (j, l) in targets.iter().enumerate() {
+            if let Some(k) = l.strip_prefix("e ") {
+                push(k.to_string());
+                // absent keys that follow the present key into the rebuilt pages
+                if j < 3 {
+                    push(flip(k, 255));
+                    push(flip(k, [13usize, 15, 17][j]));
+                }
+            }
+        }
+        let n = present.len();
+        if n > 0 {
+            let picks = 5.min(n);
+            for j in 0..picks {
+                let idx = if picks == 1 { 0 } else { j * (n - 1) / (picks - 1) };
+                push(present[idx].to_string());
+            }
+            let depths = [0usize, 3, 6, 7, 11, 12, 13, 18, 19, 40, 255];
+            for (j, d) in depths.iter().enumerate() {
+                push(flip(present[(j * 7 + i) % n], *d));
+            }
+        }
+        push("00".repeat(32));
+        push("ff".repeat(32));
+        for j in 0..24u8 {
+            let mut kb = [0u8; 32];
+            let mut h = fnv64(&[j, 0x5e, (i & 0xff) as u8, (i >> 8) as u8, n as u8]);
+            for c in kb.chunks_mut(8) {
+                h = fnv64(&h.to_le_bytes());
+                c.copy_from_slice(&h.to_le_bytes());
+            }
+            push(hex(&kb));
+        }
+        drop(push);
+        let reply = r.model.ask_multi(&format!("imgseek {}", keys.join(" ")));
+        let sess = db.begin_session(nomt::SessionParams::default());
+        for l in &reply {
+            let t: Vec<&str> = l.split(' ').filter(|x| !x.is_empty()).collect();
+            if t.is_empty() || t[0] == "undecodable" {
+                continue;
+            }
+            if t[0] == "wf_root" {
+                if t.get(1).copied() != Some("ok") {
+                    fail(out, "seekpath", "fewer than two pairs are stored but the root page holds a non-terminator top node (wf_root): compute_root_node would derive an internal root".to_string());
+                }
+                continue;
+            }
+            if t.len() < 2 {
+                continue;
+            }
+            let kb: [u8; 32] = match unhex(t[0]).try_into() {
+                Ok(k) => k,
+                Err(_) => continue,
+            };
+            let real = match std::panic::catch_unwind(std::panic::AssertUnwindSafe(|| sess.prove(kb))) {
+                Ok(Ok(p)) => p,
+                Ok(Err(e)) => {
+                    fail(out, "seekpath", format!("key {}: Session::prove failed: {:#}", t[0], e));
+                    break;
+                }
+                Err(_) => {
+                    fail(out, "seekpath", format!("key {}: Session::prove panicked (mirror: {})", t[0], t[1..].iter().take(4).cloned().collect::<Vec<_>>().join(" ")));
+                    break;
+                }
+            };
+            out.stats.seeks_compared += 1;
+            if t[1] == "none" || t.len() < 5 {
+                fail(out, "seekpath", format!("key {}: the seek mirror gives up on the decoded image (absent page not marked elided, missing oracle entry, rebuilt root differs from the stored node, or no leaf in range); Session::prove returns {} siblings", t[0], real.siblings.len()));
+                break;
+            }
+            let sd: usize = t[3].parse().unwrap_or(0);
+            let ns: usize = t[4].parse().unwrap_or(usize::MAX);
+            let sibs: Vec<Vec<u8>> = t[5..].iter().map(|h| unhex(h)).collect();
+            if sibs.len() != ns {
+                fail(out, "seekpath", format!("key {}: malformed mirror reply", t[0]));
+                break;
+            }
+            if real.siblings.len() != ns || real.siblings.iter().zip(sibs.iter()).any(|(a, b)| a[..] != b[..]) {
+                let at = real.siblings.iter().zip(sibs.iter()).position(|(a, b)| a[..] != b[..]);
+                fail(out, "seekpath", format!("key {}: Session::prove returns {} siblings, the seek mirror on the decoded image {} ({} stored pages on the path); first difference at depth {:?}", t[0], real.siblings.len(), ns, sd, at));
+                break;
+            }
+            let ok = match (&real.terminal, t[1]) {
+                (nomt::proof::PathProofTerminal::Leaf(ld), "leaf") => {
+                    hex(&ld.key_path) == t[2] && vid_of.get(t[2]).and_then(|v| vh.get(v)).map(|h| *h == ld.value_hash).unwrap_or(false)
+                }
+                (nomt::proof::PathProofTerminal::Terminator(pos), "term") => {
+                    use bitvec::prelude::*;
+                    let d: usize = t[2].parse().unwrap_or(usize::MAX);
+                    d <= 256 && pos.depth() as usize == d && pos.path() == &kb.view_bits::<Msb0>()[..d]
+                }
+                _ => false,
+            };
+            if !ok {
+                fail(out, "seekpath", format!("key {}: terminal differs: Session::prove {:?}, the seek mirror {} {}", t[0], real.terminal, t[1], t[2]));
+                break;
+            }
+            if t[1] == "term" {
+                out.stats.seeks_terminator += 1;
+            } else if t[2] == t[0] {
+                out.stats.seeks_present += 1;
+            } else {
+                out.stats.seeks_foreign_leaf += 1;
+            }
+            if ns > 6 * sd {
+                out.stats.seeks_rebuilt += 1;
+            }
+            out.stats.seeks_max_siblings = out.stats.seeks_max_siblings.max(ns as u64);
+        }
+        drop(sess);
     }
 
     // statistics, occupancy
@@ -1012,6 +1169,12 @@ fn stats_json(s: &ImgStats) -> J {
         ("lookups_of_present_keys", J::Int(s.lookups_present as i64)),
         ("lookups_also_compared_with_nomt_read", J::Int(s.lookups_vs_nomt as i64)),
         ("branch_pages_with_uncompressed_tail", J::Int(s.branches_partly_compressed as i64)),
+        ("seeks_compared", J::Int(s.seeks_compared as i64)),
+        ("seeks_ending_in_the_keys_own_leaf", J::Int(s.seeks_present as i64)),
+        ("seeks_ending_in_a_terminator", J::Int(s.seeks_terminator as i64)),
+        ("seeks_ending_in_a_foreign_leaf", J::Int(s.seeks_foreign_leaf as i64)),
+        ("seeks_through_rebuilt_elided_pages", J::Int(s.seeks_rebuilt as i64)),
+        ("seeks_max_siblings", J::Int(s.seeks_max_siblings as i64)),
         ("ms_per_image_mean", J::Num(if s.images > 0 { s.check_ms_total / s.images as f64 } else { 0.0 })),
         ("ms_per_image_max", J::Num(s.check_ms_max)),
     ])
@@ -1167,6 +1330,11 @@ pub fn cmd_img(kv: &HashMap<String, String>) -> i32 {
         ("scenarios", J::Int(results.len() as i64)),
         ("corpus_cases", J::Int(n_corpus as i64)),
         ("scenario_kinds", J::Obj(kinds.iter().map(|(k, v)| (k.clone(), J::Int(*v as i64))).collect())),
+        ("samples", J::Arr(results.iter().take(3).map(|(i, o)| J::obj(vec![
+            ("scenario", J::s(scenarios[*i].label.clone())),
+            ("images_decoded", J::Int(o.stats.images as i64)),
+            ("first_ops", J::Arr(scenarios[*i].ops.iter().take(4).map(|op| J::s(op.to_line().chars().take(160).collect::<String>())).collect())),
+        ])).collect())),
         ("scenarios_cut_short", J::Int(skip_notes.len() as i64)),
         ("cut_short_notes", J::Arr(skip_notes.into_iter().take(10).collect())),
         ("stats", stats_json(&total)),
